@@ -43,8 +43,11 @@ var propertyConfigs = map[string]*propertyConfig{
 	"C14": {
 		ID: "C14", Packages: []string{"./..."}, Level: "proof",
 		Explain: "Abstract contracts on the collective public-key protocol: GenShare = e_i - s_i*crp with one fresh error draw, in NTT/Montgomery form on Q and P; AggregateShares = +; GenPublicKey = (aggregate, crp). " +
-			"Lemma over the contracts (stated): aggregation being + in a commutative ring, the key is (sum e_i - (sum s_i)*crp, crp) for every order and grouping.",
-		Assumptions: engineBAssumptions, Trusted: stdTrusted,
+			"Lemma over the contracts (stated): aggregation being + in a commutative ring, the key is (sum e_i - (sum s_i)*crp, crp) for every order and grouping.  " +
+			"Galois keys: AggregateShares keeps the Galois element and refuses shares of different elements; GenShare tags the share with the element and returns (no nil dereference, obligation kind nil-deref under `nilsafe`) with and without an auxiliary modulus P (finding F29).  " +
+			"Finalisation (EvaluationKeyGenProtocol.GenEvaluationKey, a BOUNDED instance labelled #ragged: two RNS components with one and two power-of-two digits): every digit of the aggregated share and of the reference polynomials reaches the key (finding F28).",
+		Assumptions: append(append([]string{}, engineBAssumptions...), "BOUNDED, not a proof: the GenEvaluationKey obligations are for one ragged shape (digit counts [1 2], loops unwound); the general statement needs an invariant over a ragged matrix, which the abstract engine does not have",
+			"NOT decided: the GenShare digit loops of the evaluation-key and relinearisation-key protocols (row-level gadget factors), noise bounds, the common reference string"), Trusted: stdTrusted,
 	},
 	"C15": {
 		ID: "C15", Packages: []string{"./..."}, Level: "proof",
